@@ -34,6 +34,8 @@ class Check(HCheck):
             al.delete(1),
             al.delete(0, "first"),
             al.delete(0, "wrongid"),
+            al.delete(0, "plusforeign"),  # own prefixes first, then one it does not own: refused, nothing unset
+            al.delete(1, "plusforeign"),
             al.addprefix(Ax, 0),
             al.addprefix(Az, 1),
             al.rmprefix(Ax),
@@ -45,6 +47,10 @@ class Check(HCheck):
             al.page(Axy),
         ]
         sp = [Space(Cfg("never"), ops, 5 if thorough else 4, name="edits/never")]
+        # single resolution queries as letters: "resolve X; edit; resolve X" with X the last
+        # query before and the first after the edit (a one-entry memo is only visible then)
+        rops = [al.resolve(p) for p in (A, Ax, Axy, Ab, Awx)] + [al.create(A), al.create(Ax), al.create(C1), al.delete(0), al.delete(1), al.rmprefix(Ax), al.addprefix(Axy, 0), al.move(Ax, 0), al.page(Axy), al.rule(A, "path1"), al.unrule(A)]
+        sp.append(Space(Cfg("never"), rops, 4 if thorough else 3, roots=[al.R0, (al.create(A), al.create(Ax))], name="resolve-edit-resolve/never", dedup=False))
         ops2 = [
             al.page(Ax),
             al.page(Axy, True),
@@ -84,7 +90,8 @@ class Check(HCheck):
         if got != sorted(m.prefix.items()):
             ctx.fail("prefix-map", "attached prefixes %s differ from the net effect of the edits %s" % (_sh(got), _sh(sorted(m.prefix.items()))))
             return
-        for l in PROBES + getattr(self, "long_probes", []):
+        first = [w.last_obs] if getattr(w, "last_obs", None) else []
+        for l in first + PROBES + getattr(self, "long_probes", []):
             e = m.resolve(l)
             for what, fn in (("webentity", t.retrieve_webentity), ("prefix", t.retrieve_prefix)):
                 try:
